@@ -1,0 +1,19 @@
+//go:build verif
+
+package types
+
+import "bytes"
+
+// VerifSetProposer sets the (unexported, not persisted) cached proposer of a validator set to
+// the member with the given address. The /verif checks use it ONLY to neutralise the recorded
+// finding "proposer cache lost on reload" so that the search continues behind it; every use is
+// counted in their evidence. Compiled only with -tags verif.
+func VerifSetProposer(valSet *ValidatorSet, address []byte) bool {
+	for _, val := range valSet.Validators {
+		if bytes.Equal(val.Address, address) {
+			valSet.proposer = val
+			return true
+		}
+	}
+	return false
+}
